@@ -1,0 +1,26 @@
+//go:build verif
+
+package state
+
+import "time"
+
+// VerifIdleAndClean moves the last activity of every session back by d and
+// runs one tick of the session cleaner. It returns how many sessions the
+// cleaner removed.
+// Verification hook: only compiled with the "verif" build tag.
+func (state *State) VerifIdleAndClean(d time.Duration) int {
+	state.sessionsLock.Lock()
+	before := len(state.sessions)
+	for _, s := range state.sessions {
+		s.lock.Lock()
+		s.lastActivity = s.lastActivity.Add(-d)
+		s.lock.Unlock()
+	}
+	state.sessionsLock.Unlock()
+
+	state.cleanSessions()
+
+	state.sessionsLock.Lock()
+	defer state.sessionsLock.Unlock()
+	return before - len(state.sessions)
+}
